@@ -348,6 +348,17 @@ def _check_tensor(rep, t, code, shape, pats, ref_bytes, tmpdir, case, fails, fla
                     fail("numpy-values", f"elements {bad} differ: got {[hex(got[i]) for i in bad]} expected {[hex(pats[i]) for i in bad]}")
     except Exception as e:
         fail("numpy-exc", f"{type(e).__name__}: {e}"[:200])
+    # a Shape built from the tensor's shape is the caller's own: editing it must leave the tensor alone
+    try:
+        import onnx_ir as ir
+
+        sh2 = ir.Shape(t.shape)
+        if len(sh2) and not sh2.frozen:
+            sh2[0] = 97
+            if list(t.shape.numpy()) != list(shape):
+                fail("shape-aliased", f"editing ir.Shape(tensor.shape) changed the tensor's shape to {list(t.shape.numpy())}")
+    except Exception:
+        pass
     # tobytes()
     exp_bytes = ref_bytes
     try:
@@ -461,6 +472,23 @@ def _string_case(ir, onnx, serde, case, fails, keys):
                 fails.append((f"string-exc/{rep}/STRING", f"{rep} shape={shape}: {type(e).__name__}: {e}"[:200]))
             if size >= 1:
                 keys.append(f"STRING|{rep}|{shape}|{hash(tuple(strs)) & 0xffffffff}")
+        if size >= 1:
+            # history: the array view is taken first (a fixed-width numpy byte string cannot hold trailing NULs, so its VALUES
+            # are not judged), then the exact strings are asked for: they must still be the ones that were put in
+            nul = [x + b"\x00" * (1 + i % 2) if i % 2 == 0 else x for i, x in enumerate(strs)]
+            for rep, t in (("StringTensor(list)", ir.StringTensor(list(nul), shape=ir.Shape(shape), name="t")),
+                           ("proto_string_data", serde.TensorProtoTensor(onnx.TensorProto(data_type=8, dims=shape, string_data=nul, name="t")))):
+                n += 1
+                try:
+                    t.numpy()
+                    np.asarray(t)
+                    if hasattr(t, "string_data") and [bytes(x) for x in t.string_data()] != nul:
+                        fails.append((f"string-data-after-array-view/{rep}/STRING", f"{rep} shape={shape}: string_data() after numpy() gives {[bytes(x) for x in t.string_data()][:3]}, put in {nul[:3]}"))
+                    back = list(serde.serialize_tensor(t).string_data)
+                    if back != nul:
+                        fails.append((f"string-serialized-after-array-view/{rep}/STRING", f"{rep} shape={shape}: serialized {back[:3]}, put in {nul[:3]}"))
+                except Exception as e:
+                    fails.append((f"string-exc-after-array-view/{rep}/STRING", f"{rep} shape={shape}: {type(e).__name__}: {e}"[:200]))
     return n
 
 
